@@ -33,6 +33,30 @@ func tcpScript(addr string, data []byte) error {
 	return err
 }
 
+// tcpStaged writes first, waits for the peer's first reply bytes (at most 2 s), then writes rest:
+// lal's WebSocket-RTSP listener hijacks the connection after net/http parsed the upgrade request
+// and drops whatever arrived in the same segment, so frames must follow the 101 reply to be seen.
+func tcpStaged(addr string, first, rest []byte) error {
+	c, err := net.DialTimeout("tcp", addr, 3*time.Second)
+	if err != nil {
+		return err
+	}
+	defer c.Close()
+	c.SetWriteDeadline(time.Now().Add(5 * time.Second))
+	c.Write(first)
+	buf := make([]byte, 65536)
+	c.SetReadDeadline(time.Now().Add(2 * time.Second))
+	c.Read(buf)
+	c.Write(rest)
+	c.(*net.TCPConn).CloseWrite()
+	for {
+		c.SetReadDeadline(time.Now().Add(3 * time.Second))
+		if _, e := c.Read(buf); e != nil {
+			return nil
+		}
+	}
+}
+
 func rtspReq(method, uri string, cseq int, headers []string, body []byte) []byte {
 	var sb strings.Builder
 	fmt.Fprintf(&sb, "%s %s RTSP/1.0\r\nCSeq: %d\r\n", method, uri, cseq)
@@ -517,6 +541,80 @@ func c13Inputs(c *fw.Ctx, i int, s *srv.Server, bgName string) []c13Input {
 				return nil
 			}})
 		}
+		// reordering, gaps, duplicates and jumps in the RTP sequence numbers, mixed with bodies the PS
+		// parser rejects: the jitter list's bookkeeping (size, done sequence) across resets
+		for _, tcp := range []bool{false, true} {
+			tcp := tcp
+			goodB := append(ref.PsPackHeader(1000), ref.PsSystemHeader(true, true)...)
+			goodB = append(goodB, ref.PsMap(0x1b, 0x0f)...)
+			goodB = append(goodB, ref.PsPes(0xE0, 1000, 1000, true, append([]byte{0, 0, 0, 1, 0x65}, rb(30)...), 65000)...)
+			bodies := [][]byte{goodB, ref.PsPackHeader(1000), {0, 0, 2, 0, 1, 2, 3, 4}, {9, 9, 9, 9, 9, 9}, {0, 0, 1, 0xE0, 0xff, 0xff, 0x80, 0xc0, 0xff}, {}}
+			type pk struct {
+				seq  uint16
+				body []byte
+			}
+			var prog []pk
+			base := uint16(r.Intn(65536))
+			for ep := 0; ep < 14; ep++ {
+				n := []int{3, 40, 100, 300, 999, 1023, 1024, 1100}[r.Intn(8)]
+				run := bodies[r.Intn(len(bodies))]
+				prog = append(prog, pk{base, goodB})
+				for k := 0; k < n; k++ { // hole at base+1
+					prog = append(prog, pk{base + 2 + uint16(k), run})
+					if r.Intn(50) == 0 {
+						prog = append(prog, pk{base + 2 + uint16(r.Intn(k+1)), run}) // duplicate
+					}
+				}
+				if r.Intn(4) != 0 {
+					prog = append(prog, pk{base + 1, bodies[r.Intn(len(bodies))]}) // fill the hole
+				}
+				switch r.Intn(3) {
+				case 0:
+					base += uint16(n) + 2
+				case 1:
+					base += uint16(2000 + r.Intn(30000))
+				default:
+					base -= uint16(r.Intn(3000))
+				}
+			}
+			out = append(out, c13Input{Class: fmt.Sprintf("gb28181/reorder/tcp=%v", tcp), Desc: fmt.Sprintf("%d RTP packets with holes, duplicates, jumps and rejected bodies", len(prog)), Run: func(s *srv.Server) error {
+				port := srv.FreeUdpPort()
+				if tcp {
+					port = srv.FreePort()
+				}
+				body, _ := json.Marshal(map[string]interface{}{"stream_name": fmt.Sprintf("%s_psr_%v", name, tcp), "port": port, "timeout_ms": 3000, "is_tcp_flag": map[bool]int{false: 0, true: 1}[tcp]})
+				st, resp, err := srv.HttpPostJson(s.ApiAddr(), "/api/ctrl/start_rtp_pub", string(body), 5*time.Second)
+				if err != nil {
+					return err
+				}
+				if st != 200 || !strings.Contains(string(resp), `"error_code":0`) {
+					return nil
+				}
+				var conn net.Conn
+				if tcp {
+					conn, err = net.DialTimeout("tcp", fmt.Sprintf("127.0.0.1:%d", port), 2*time.Second)
+				} else {
+					conn, err = net.Dial("udp", fmt.Sprintf("127.0.0.1:%d", port))
+				}
+				if err != nil {
+					return nil
+				}
+				defer conn.Close()
+				for k, p := range prog {
+					pkt := ref.BuildRtp(ref.RtpPkt{PT: 96, Seq: p.seq, Ts: uint32(p.seq) * 3600, Ssrc: 9, Payload: p.body, Marker: true})
+					if tcp {
+						conn.Write(append([]byte{byte(len(pkt) >> 8), byte(len(pkt))}, pkt...))
+					} else {
+						conn.Write(pkt)
+						if k%100 == 99 {
+							time.Sleep(2 * time.Millisecond) // keep the UDP receive buffer from overflowing
+						}
+					}
+				}
+				time.Sleep(30 * time.Millisecond)
+				return nil
+			}})
+		}
 	case 5: // HTTP requests to the FLV/TS/HLS and API listeners
 		paths := []string{"/", "/live", "/live/", "/live/x", "/live/x.flv", "/live/x.ts", "/live/.flv", "/live/x.flv?", "/live/x.flv?lal_secret", "/live/x.flv?%zz", "/live/" + strings.Repeat("a", 9000) + ".flv", "/hls/", "/hls/x.m3u8", "/hls/x/playlist.m3u8", "/hls/x/record.m3u8",
 			"/hls/x-1-2.ts", "/hls/x/x-1-2.ts", "/hls/..-1-2.ts", "/hls/../../etc/passwd", "/hls/%2e%2e/%2e%2e/x.ts", "/hls/x.ts", "/hls/-.ts", "/hls/--.ts", "/hls/.m3u8", "/hls/a/b/c/d.m3u8", "/hls//x.m3u8", "/hls/x.m3u8?session_id=", "/hls/x.mp4", "*", "", "http://h/live/x.flv"}
@@ -555,31 +653,51 @@ func c13Inputs(c *fw.Ctx, i int, s *srv.Server, bgName string) []c13Input {
 		wsAddr := fmt.Sprintf("127.0.0.1:%d", s.Ports.WsRtsp)
 		hs := "GET /live/" + bgName + " HTTP/1.1\r\nHost: x\r\nUpgrade: websocket\r\nConnection: Upgrade\r\nSec-WebSocket-Key: dGhlIHNhbXBsZSBub25jZQ==\r\nSec-WebSocket-Version: 13\r\nSec-WebSocket-Protocol: rtsp\r\n\r\n"
 		mask := [4]byte{1, 2, 3, 4}
+		addWs := func(class, addr, handshake string, rest []byte) {
+			addTcp(class, addr, append([]byte(handshake), rest...))
+			rr := rest
+			out = append(out, c13Input{Class: class + "/staged", Desc: fmt.Sprintf("tcp %s handshake, then after the reply len=%d head=%s", addr, len(rr), hex.EncodeToString(rr[:min(len(rr), 160)])), Run: func(s *srv.Server) error { return tcpStaged(addr, []byte(handshake), rr) }})
+		}
 		opt := rtspReq("OPTIONS", url(bgName), 1, nil, nil)
 		desc := rtspReq("DESCRIBE", url(bgName), 2, []string{"Accept: application/sdp"}, nil)
 		frames := [][]byte{ref.WsEncode(2, true, opt, &mask), ref.WsEncode(2, true, desc, &mask), ref.WsEncode(1, true, opt, &mask), ref.WsEncode(2, true, opt, nil), ref.WsEncode(0, false, opt, &mask), ref.WsEncode(8, true, nil, &mask), ref.WsEncode(9, true, []byte("p"), &mask),
 			{0x82, 0xff, 0x7f, 0xff, 0xff, 0xff, 0xff, 0xff, 0xff, 0xff, 1, 2, 3, 4}, {0x82, 0xff, 0xff, 0xff, 0xff, 0xff, 0xff, 0xff, 0xff, 0xff, 1, 2, 3, 4}, {0x82, 0xfe, 0xff, 0xff, 1, 2, 3, 4, 5}, {0x82, 0x7f, 0, 0, 0, 1, 0, 0, 0, 0}, {0x82, 0x7e}, {0x82}, {0x82, 0x80},
 			ref.WsEncode(2, true, []byte("garbage\r\n\r\n"), &mask), ref.WsEncode(2, true, nil, &mask), ref.WsEncode(2, true, []byte("$\x00\x00\x01x"), &mask), ref.WsEncode(2, true, rb(500), &mask)}
 		for _, f := range frames {
-			addTcp("ws-rtsp/frame", wsAddr, append([]byte(hs), f...))
-			addTcp("ws-rtsp/frame-after-options", wsAddr, append(append([]byte(hs), ref.WsEncode(2, true, opt, &mask)...), f...))
-			addTcp("ws-rtsp/frame-after-describe", wsAddr, append(append([]byte(hs), ref.WsEncode(2, true, desc, &mask)...), f...))
+			addWs("ws-rtsp/frame", wsAddr, hs, f)
+			addWs("ws-rtsp/frame-after-options", wsAddr, hs, append(append([]byte(nil), ref.WsEncode(2, true, opt, &mask)...), f...))
+			addWs("ws-rtsp/frame-after-describe", wsAddr, hs, append(append([]byte(nil), ref.WsEncode(2, true, desc, &mask)...), f...))
 		}
 		setup := rtspReq("SETUP", url(bgName)+"/streamid=0", 3, []string{"Transport: RTP/AVP/TCP;unicast;interleaved=0-1"}, nil)
 		play := rtspReq("PLAY", url(bgName), 4, nil, nil)
-		full := append([]byte(hs), ref.WsEncode(2, true, desc, &mask)...)
+		full := append([]byte(nil), ref.WsEncode(2, true, desc, &mask)...)
 		full = append(full, ref.WsEncode(2, true, setup, &mask)...)
 		full = append(full, ref.WsEncode(2, true, play, &mask)...)
-		addTcp("ws-rtsp/full-play", wsAddr, full)
+		addWs("ws-rtsp/full-play", wsAddr, hs, full)
 		for n := 0; n < len(hs); n += 9 {
 			addTcp("ws-rtsp/handshake-truncated", wsAddr, []byte(hs[:n]))
+		}
+		fh := "GET /live/" + bgName + ".flv HTTP/1.1\r\nHost: x\r\nUpgrade: websocket\r\nConnection: Upgrade\r\nSec-WebSocket-Key: dGhlIHNhbXBsZSBub25jZQ==\r\n\r\n"
+		// 64-bit payload length forms, honest and not
+		for _, l := range []uint64{0, 1, 125, 126, 65535, 65536, 1 << 20, 1 << 31, 1 << 32, 1 << 40, 1 << 62, 1 << 63, 0xffffffffffffffff} {
+			for _, masked := range []byte{0x80, 0x00} {
+				h := []byte{0x82, masked | 127, byte(l >> 56), byte(l >> 48), byte(l >> 40), byte(l >> 32), byte(l >> 24), byte(l >> 16), byte(l >> 8), byte(l)}
+				if masked != 0 {
+					h = append(h, 1, 2, 3, 4)
+				}
+				addWs("ws-rtsp/len64", wsAddr, hs, append(append([]byte(nil), h...), rb(300)...))
+				addWs("ws-flv/len64", s.HttpAddr(), fh, append(append([]byte(nil), h...), rb(300)...))
+			}
+		}
+		for _, l := range []int{0, 1, 125, 126, 300, 65535} {
+			h := []byte{0x82, 0x80 | 126, byte(l >> 8), byte(l), 1, 2, 3, 4}
+			addWs("ws-rtsp/len16", wsAddr, hs, append(append([]byte(nil), h...), rb(300)...))
 		}
 		addTcp("ws-rtsp/raw", wsAddr, rb(200))
 		addTcp("ws-rtsp/no-key", wsAddr, []byte("GET / HTTP/1.1\r\nUpgrade: websocket\r\n\r\n"))
 		// ws-flv on the http listener
-		fh := "GET /live/" + bgName + ".flv HTTP/1.1\r\nHost: x\r\nUpgrade: websocket\r\nConnection: Upgrade\r\nSec-WebSocket-Key: dGhlIHNhbXBsZSBub25jZQ==\r\n\r\n"
 		for _, f := range frames {
-			addTcp("ws-flv/client-frame", s.HttpAddr(), append([]byte(fh), f...))
+			addWs("ws-flv/client-frame", s.HttpAddr(), fh, f)
 		}
 	case 7: // upstream replies while lal is the client
 		out = append(out, c13UpstreamInputs(c, i, name)...)
